@@ -396,6 +396,79 @@ func monC05(c *child.Ctx, replay json.RawMessage) {
 			}
 		}
 	}
+	// results that are kept: a decoded message must not change when later messages are
+	// decoded (the caller - the proxy's report queue, a display goroutine - still holds it)
+	nk := c.Share(c.Pick(20000, 400000))
+	type kept struct {
+		b    *ref.Base
+		get  func() *baseFields
+		text func() string
+		cj   []byte
+	}
+	var ring []kept
+	for i := 0; i < nk && c.NViolations() == 0; i++ {
+		t := 1005 + r.Intn(2)
+		b := gen.RandBase(r, t)
+		if r.Chance(3, 4) {
+			b.Trailing = nil
+		}
+		frame := ref.Frame(ref.EncodeBase(b, t))
+		kc := baseCase{B: b, TypeField: t, Cut: -1}
+		cj, _ := json.Marshal(kc)
+		if i%256 == 0 {
+			c.Begin(cj)
+		}
+		var kp kept
+		panicked := ""
+		func() {
+			defer func() {
+				if rr := recover(); rr != nil {
+					panicked = fmt.Sprint(rr)
+				}
+			}()
+			if t == 1005 {
+				m, err := type1005.GetMessage(frame, slog.LevelInfo)
+				if err != nil || m == nil {
+					panicked = fmt.Sprintf("well-formed 1005 rejected: %v", err)
+					return
+				}
+				kp = kept{b: b, cj: cj, text: m.String, get: func() *baseFields {
+					return &baseFields{typ: m.MessageType, station: m.StationID, itrf: m.ITRFRealisationYear, i1: m.Ignored1, i2: m.Ignored2, i3: m.Ignored3, x: m.AntennaRefX, y: m.AntennaRefY, z: m.AntennaRefZ}
+				}}
+			} else {
+				m, err := type1006.GetMessage(frame, slog.LevelInfo)
+				if err != nil || m == nil {
+					panicked = fmt.Sprintf("well-formed 1006 rejected: %v", err)
+					return
+				}
+				kp = kept{b: b, cj: cj, text: m.String, get: func() *baseFields {
+					return &baseFields{typ: m.MessageType, station: m.StationID, itrf: m.ITRFRealisationYear, i1: m.Ignored1, i2: m.Ignored2, i3: m.Ignored3, x: m.AntennaRefX, y: m.AntennaRefY, z: m.AntennaRefZ, height: m.AntennaHeight}
+				}}
+			}
+		}()
+		if panicked != "" {
+			c.Violate("well-formed-rejected", panicked, cj)
+			break
+		}
+		ring = append(ring, kp)
+		if len(ring) > 4 {
+			ring = ring[1:]
+		}
+		for age, old := range ring {
+			if why := checkBaseFields(old.b, old.get()); why != "" {
+				c.Violate("field-mismatch", fmt.Sprintf("a type %d message decoded %d decodes ago and kept by the caller has changed: %s", old.b.Type, len(ring)-1-age, why), old.cj)
+				break
+			}
+			if i%8 == 0 {
+				if why := checkBaseText(old.b, old.text()); why != "" {
+					c.Violate("display-not-exact", fmt.Sprintf("a type %d message decoded %d decodes ago and kept by the caller displays differently now: %s", old.b.Type, len(ring)-1-age, why), old.cj)
+					break
+				}
+			}
+		}
+		c.Count("kept_results_rechecked", int64(len(ring)))
+		c.EvalN(1)
+	}
 }
 
 func hasKey(raw json.RawMessage, key string) bool {
